@@ -15,6 +15,26 @@ import itertools
 _HGEN = itertools.count(1)
 
 
+def _mentions(e, consts):
+    "does term e contain one of the constants?"
+    ids = {c.get_id() for c in consts}
+    seen = set()
+    todo = [e]
+    while todo:
+        t = todo.pop()
+        k = t.get_id()
+        if k in seen:
+            continue
+        seen.add(k)
+        if k in ids:
+            return True
+        if z3.is_quantifier(t):
+            todo.append(t.body())
+        else:
+            todo.extend(t.children())
+    return False
+
+
 class Calls(Exec):
 
     # ------------------------------------------------------------------ Call
@@ -319,6 +339,10 @@ class Calls(Exec):
         # exceptional continuation(s)
         for exc in c.raises:
             s2 = st.fork()
+            if c.allocates:
+                a2 = fresh_int('alloc')
+                s2.assume(a2 >= s2.alloc)
+                s2.alloc = a2
             self.havoc_frame(s2, c, fr, node)
             ev = self.new_object(s2, exc) if exc in REG.classes else VAny()
             ok = True
@@ -328,6 +352,13 @@ class Calls(Exec):
                 self.exc_sink.append((s2, ev))
         # normal continuation
         pre_call0 = st.fork()
+        # the callee may allocate: the counter moves first, so that the havocked locations (typed: every stored
+        # reference is below the counter) can hold objects the callee created
+        RT = parse_type(c.returns)
+        if RT[0] in ('ref', 'list', 'rec') or c.allocates or self._may_allocate(RT):
+            a2 = fresh_int('alloc')
+            st.assume(a2 >= st.alloc)
+            st.alloc = a2
         self.havoc_frame(st, c, fr, node)
         if cb_closure is not None:
             pre_call = pre_call0
@@ -351,15 +382,14 @@ class Calls(Exec):
                     self.havoc_target(st, mexpr, cur, node)
                 for e in cspec.get('ensures', []):
                     st.assume(self.eval_spec(st, e, cur, old=self._old_view(pre_call0, len(pre_call0.frames) - 1), assume=True))
-        RT = parse_type(c.returns)
-        if RT[0] in ('ref', 'list', 'rec') or c.allocates or self._may_allocate(RT):
-            a2 = fresh_int('alloc')
-            st.assume(a2 >= st.alloc)
-            st.alloc = a2
         res = self.make_fresh(st, RT, 'ret')
         for e in c.ensures:
             st.assume(self.eval_spec(st, e, fr, old=old, result=res, assume=True))
         if not self.feasible(st):
+            # the callee's postcondition contradicts what is known here: nothing after this call would be
+            # checked on this path.  Never silent: recorded, and reported as vacuity by verify().
+            self.dead_after_call.append('%s@L%s: path ends after the call of %s (its postcondition is '
+                                        'inconsistent with the caller state)' % (self.cur_key, getattr(node, 'lineno', '?'), c.key))
             return []
         return [(st, res)]
 
@@ -640,10 +670,20 @@ class Calls(Exec):
                 lo = self.int_term(self.ev1(a[0], st), node)
                 hi = self.int_term(self.ev1(a[1], st), node)
                 rng = AND(qs[0] >= lo, qs[0] < hi)
+                if z3.is_int_value(lo) and lo.as_long() >= 0:
+                    s.nonneg = s.nonneg | {qs[0].get_id()}
             else:
                 rng = TRUE
             body = self.truthy(s, self.ev1(lam.body, s))
-            extra = s.pc[len(st.pc):]
+            extra = []
+            for e in s.pc[len(st.pc):]:
+                # facts met while translating the body that do not mention the bound variables (frame axioms
+                # of heap arrays first touched here, type invariants of outer values) are facts of the
+                # enclosing state; kept inside they would put a quantifier under the quantifier's guard
+                if _mentions(e, qs):
+                    extra.append(e)
+                else:
+                    st.assume(e)
             if name == 'forall':
                 # type invariants of heap values met while translating the body (`extra`) are facts about
                 # every well-typed heap: given to the solver when the formula is assumed, available as
